@@ -52,7 +52,7 @@ CHECKS = {
         technique="reference-model monitor: generated ASTs carry their own column dataflow; get_column_lineage end-to-end pairs compared with it",
         category="exploration",
         text="Seeded-random and enumerated statements (expression trees to depth 3 over every select-item kind, 1-3 relations in scope, derived tables, CTEs, set operations, "
-             "INSERT column lists, UPDATE FROM, MERGE) are analysed by the real package; the reported (source column -> target column) pairs, with owners or sorted candidate owners, "
+             "INSERT column lists, UPDATE FROM, MERGE, scalar sub-query operands incl. correlated references through an outer alias) are analysed by the real package; the reported (source column -> target column) pairs, with owners or sorted candidate owners, "
              "must equal the AST's dataflow.",
         design_ref="DESIGN.md §4 C02",
         note="Shapes the property leaves undecided are not generated (mixed stars, stars over CTE references) or tolerated (sub-query rooted pairs of literal-defined columns); the same text analysed exactly under ansi is the referee for per-dialect blind spots.",
@@ -62,7 +62,7 @@ CHECKS = {
         category="exploration",
         text="All histories up to the length bound over a 40-statement abstract catalog (parsed once by the real analyzers) are folded by the real "
              "SQLLineageHolder.of at every prefix and compared with the set of role-model states the property allows; random SQL scripts are run "
-             "end to end through LineageRunner prefix by prefix.",
+             "end to end through LineageRunner prefix by prefix, and every statement's facts inside the script must equal its facts when analysed alone.",
         design_ref="DESIGN.md §4 C03",
         note="DROP of an unwired table and tag/self-loop inheritance on RENAME are relational (either outcome accepted); facts come from the statement tap.",
     ),
@@ -94,7 +94,7 @@ CHECKS = {
         technique="invariant monitor on the outcome of every execution over a hostile mutation workload + independent parse oracle + silent-mode differential monitor",
         category="exploration",
         text="Every accessor is touched on thousands of damaged, truncated, crossed-over, nested and metacharacter-laden inputs under all analyzers; the outcome "
-             "must be a result or a sqllineage exception; text that sqlfluff's own parser rejects must not return a result; an unsupported statement inserted "
+             "must be a result or a sqllineage exception; text that sqlfluff's own parser rejects must not return a result; an accessor called again on the same runner after an error must raise a library error again; an unsupported statement inserted "
              "at every position of a silent-mode script must warn and leave the result unchanged.",
         design_ref="DESIGN.md §4 C10",
         note="sqlfluff's Linter.parse_string is trusted as the independent parse oracle (single-statement inputs only). The mutation workload is a deterministic function of (corpus, tier) plus a VERIF_SEED-driven slice.",
@@ -111,7 +111,7 @@ CHECKS = {
         technique="history + session-balance monitors over recorded session events, fault injection at statements/lookups/line events (sys.monitoring), 16-thread stress with yield injection (one reused provider per thread, session store checked after every run)",
         category="fault_enumeration",
         text="Run B after a history of runs (failing statement at every position, provider raising at every lookup, InjectedFault at line events inside the run's work) "
-             "on default/shared/fresh providers must equal B in a fresh process; at every return or raise the session tap must balance and the provider must answer as "
+             "on default/shared/fresh providers must equal B in a fresh process (also with scratch configuration directories given as file_path); at every return or raise the session tap must balance and the provider must answer as "
              "a fresh one; 16 threads with own providers/configs under seeded yield injection must reproduce the sequential records.",
         design_ref="DESIGN.md §4 C12",
         note="Faults are not injected inside the cleanup path itself (MetaDataSession.__exit__/deregister); line failpoints are sampled in quick, exhaustive per script in thorough.",
@@ -120,7 +120,7 @@ CHECKS = {
         technique="differential + reference-model monitor: statement templates x every known/unknown assignment x overlap pattern x both bundled providers, and generated statements under random metadata",
         category="exploration",
         text="For every assignment of (known with columns | unknown) to the tables of star / qualified-star / unqualified-column / INSERT with and without column list templates, and for generated "
-             "statements with random metadata, the run with a provider is compared with the run without (table lineage identical; all-unknown identical) and with the reference expansion/attribution.",
+             "statements with random metadata, the run with a provider is compared with the run without (table lineage identical; all-unknown identical) and with the reference expansion/attribution; the same case is repeated on the same provider object after a run that failed.",
         design_ref="DESIGN.md §4 C13",
         note="The SQLAlchemy provider runs on scratch sqlite files (one fresh set per case); which known table a shared star column is attributed to is left undecided (table level only).",
     ),
@@ -145,7 +145,7 @@ CHECKS = {
         technique="reference-model monitor for names: exhaustive spelling x quote style x name parts x syntactic position grid against a 12-line reference normaliser; parsed-vs-built eq/hash compatibility monitor on the live model objects",
         category="exploration",
         text="Every spelling of a table, column and alias name (case pattern x quote style the dialect lexes x 1-3 parts) is placed at every syntactic position (FROM, target, column, "
-             "qualifier, alias, column list, written-then-read across two statements) and the printed tables and column pairs are compared with the reference normaliser's prediction.",
+             "qualifier, alias, column list, UPDATE target beside a lower-case namesake, written-then-read across two statements) and the printed tables and column pairs are compared with the reference normaliser's prediction.",
         design_ref="DESIGN.md §4 C16",
         note="Known findings are matched only when the observation equals the defect-adjusted reference exactly; which quote characters quote identifiers is asked of the dialect's own sqlfluff grammar.",
     ),
